@@ -140,18 +140,30 @@ impl GaloisTool {
         let index = Self::get_index_from_elt(galois_elt);
 
         // Acquire lock
+        #[cfg(feature = "verif-hooks")]
+        crate::verif::yield_point("gal.before_check");
         let need_to_generate = {
             let tables = self.permutation_tables.read().unwrap();
+            #[cfg(feature = "verif-hooks")]
+            crate::verif::event("gal.check", &[index as u64, (*tables)[index].len() as u64]);
             (*tables)[index].is_empty()
         };
         if need_to_generate {
+            #[cfg(feature = "verif-hooks")]
+            crate::verif::yield_point("gal.before_generate");
             let mut tables = self.permutation_tables.write().unwrap();
             (*tables)[index] = self.generate_table_ntt(galois_elt);
+            #[cfg(feature = "verif-hooks")]
+            crate::verif::event("gal.generate", &[index as u64, (*tables)[index].len() as u64]);
         }
 
         // Acquire read
+        #[cfg(feature = "verif-hooks")]
+        crate::verif::yield_point("gal.before_use");
         let reader = self.permutation_tables.read().unwrap();
         let table = &(*reader)[index];
+        #[cfg(feature = "verif-hooks")]
+        crate::verif::event("gal.use", &[index as u64, table.len() as u64]);
         // Perform permutation.
         assert_eq!(result.len(), self.coeff_count);
         result.iter_mut().zip(table.iter()).for_each(|(r, &t)| *r = operand[t]);
